@@ -204,7 +204,7 @@ def has_subterm(v, sub):
 
 
 class Interp:
-    def __init__(self, prog, hook=None, max_steps=200000, max_depth=6, loop_bound=2, opaque=None, record_backedge=False, split_opaque=True, vec_model=False):
+    def __init__(self, prog, hook=None, max_steps=200000, max_depth=6, loop_bound=2, opaque=None, record_backedge=False, split_opaque=True, vec_model=False, const_chars=False):
         """hook(interp, fn, term, args) -> None | value | Fork([...]); opaque: predicate on callee Fn -> do not descend"""
         self.prog = prog
         self.hook = hook
@@ -217,6 +217,7 @@ class Interp:
         self.record_backedge = record_backedge
         self.split_opaque = split_opaque
         self.vec_model = vec_model
+        self.const_chars = const_chars
 
     # -- values of places / operands
     def place_val(self, env, pl):
@@ -515,6 +516,14 @@ class Interp:
                     env['__iter'] = cur
                     return SOME(args[0][2][i]), args
                 return NONE, args
+        # predicates of a known character (std char methods; Python's str methods agree with them on the characters rules use)
+        if self.const_chars and not c.get('local') and len(args) == 1 and args[0][0] == 'c' and isinstance(args[0][1], str) and len(args[0][1]) == 1 and 'char' in d:
+            ch = args[0][1]
+            table = {'is_whitespace': ch.isspace(), 'is_ascii_whitespace': ch in ' \t\n\x0c\r', 'is_alphabetic': ch.isalpha(), 'is_numeric': ch.isnumeric(),
+                     'is_alphanumeric': ch.isalnum(), 'is_ascii_digit': ch in '0123456789', 'is_ascii': ord(ch) < 128, 'is_ascii_alphabetic': ch.isascii() and ch.isalpha(),
+                     'is_ascii_alphanumeric': ch.isascii() and ch.isalnum(), 'is_ascii_punctuation': ch.isascii() and not ch.isalnum() and not ch.isspace() and ch.isprintable()}
+            if name in table:
+                return C(bool(table[name])), args
         # `f(args)` where f: impl Fn* and its value is known on this path
         if name in ('call', 'call_mut', 'call_once') and path_endswith(tr, ('ops::Fn', 'ops::FnMut', 'ops::FnOnce')[('call', 'call_mut', 'call_once').index(name)]) \
                 and len(args) == 2 and args[0][0] in ('fn', 'closure') and args[1][0] == 'tuple' and depth < self.max_depth:
@@ -851,7 +860,8 @@ class Interp:
             elif k == 'call':
                 res, args = self.call(fn, env, t, depth)
                 c = t['callee']
-                eff = (c['def'], callee_resolved(t), tuple(args), t['span'])
+                # (callee def, resolved callee, arguments, span, result term when the call yields one value)
+                eff = (c['def'], callee_resolved(t), tuple(args), t['span'], res if (isinstance(res, tuple) and res and res[0] in ('app', 'adt', 'c', 'sym', 'proj', 'tuple')) else None)
                 if t.get('target') is None:
                     out.append((('diverge',), effects + (eff,)))
                     return
